@@ -193,6 +193,15 @@ theories/Props/C13.vos theories/Props/C13.vok theories/Props/C13.required_vos: t
 theories/Props/C14.vo theories/Props/C14.glob theories/Props/C14.v.beautified theories/Props/C14.required_vo: theories/Props/C14.v theories/Base/Prelude.vo theories/Parse/Dispatch.vo theories/Parse/Dispatch_proofs.vo
 theories/Props/C14.vio: theories/Props/C14.v theories/Base/Prelude.vio theories/Parse/Dispatch.vio theories/Parse/Dispatch_proofs.vio
 theories/Props/C14.vos theories/Props/C14.vok theories/Props/C14.required_vos: theories/Props/C14.v theories/Base/Prelude.vos theories/Parse/Dispatch.vos theories/Parse/Dispatch_proofs.vos
+theories/Parse/Safe.vo theories/Parse/Safe.glob theories/Parse/Safe.v.beautified theories/Parse/Safe.required_vo: theories/Parse/Safe.v theories/Base/Prelude.vo
+theories/Parse/Safe.vio: theories/Parse/Safe.v theories/Base/Prelude.vio
+theories/Parse/Safe.vos theories/Parse/Safe.vok theories/Parse/Safe.required_vos: theories/Parse/Safe.v theories/Base/Prelude.vos
+theories/Parse/Safe_proofs.vo theories/Parse/Safe_proofs.glob theories/Parse/Safe_proofs.v.beautified theories/Parse/Safe_proofs.required_vo: theories/Parse/Safe_proofs.v theories/Base/Prelude.vo theories/Parse/Safe.vo
+theories/Parse/Safe_proofs.vio: theories/Parse/Safe_proofs.v theories/Base/Prelude.vio theories/Parse/Safe.vio
+theories/Parse/Safe_proofs.vos theories/Parse/Safe_proofs.vok theories/Parse/Safe_proofs.required_vos: theories/Parse/Safe_proofs.v theories/Base/Prelude.vos theories/Parse/Safe.vos
+theories/Generated/C15_gen.vo theories/Generated/C15_gen.glob theories/Generated/C15_gen.v.beautified theories/Generated/C15_gen.required_vo: theories/Generated/C15_gen.v theories/Base/Prelude.vo theories/Parse/Safe.vo
+theories/Generated/C15_gen.vio: theories/Generated/C15_gen.v theories/Base/Prelude.vio theories/Parse/Safe.vio
+theories/Generated/C15_gen.vos theories/Generated/C15_gen.vok theories/Generated/C15_gen.required_vos: theories/Generated/C15_gen.v theories/Base/Prelude.vos theories/Parse/Safe.vos
 theories/Parse/Chunk.vo theories/Parse/Chunk.glob theories/Parse/Chunk.v.beautified theories/Parse/Chunk.required_vo: theories/Parse/Chunk.v theories/Base/Prelude.vo
 theories/Parse/Chunk.vio: theories/Parse/Chunk.v theories/Base/Prelude.vio
 theories/Parse/Chunk.vos theories/Parse/Chunk.vok theories/Parse/Chunk.required_vos: theories/Parse/Chunk.v theories/Base/Prelude.vos
@@ -205,6 +214,9 @@ theories/Parse/Tree.vos theories/Parse/Tree.vok theories/Parse/Tree.required_vos
 theories/Parse/Tree_proofs.vo theories/Parse/Tree_proofs.glob theories/Parse/Tree_proofs.v.beautified theories/Parse/Tree_proofs.required_vo: theories/Parse/Tree_proofs.v theories/Base/Prelude.vo theories/Parse/Tree.vo
 theories/Parse/Tree_proofs.vio: theories/Parse/Tree_proofs.v theories/Base/Prelude.vio theories/Parse/Tree.vio
 theories/Parse/Tree_proofs.vos theories/Parse/Tree_proofs.vok theories/Parse/Tree_proofs.required_vos: theories/Parse/Tree_proofs.v theories/Base/Prelude.vos theories/Parse/Tree.vos
+theories/Props/C15.vo theories/Props/C15.glob theories/Props/C15.v.beautified theories/Props/C15.required_vo: theories/Props/C15.v theories/Base/Prelude.vo theories/Parse/Safe.vo theories/Parse/Safe_proofs.vo theories/Generated/C15_gen.vo
+theories/Props/C15.vio: theories/Props/C15.v theories/Base/Prelude.vio theories/Parse/Safe.vio theories/Parse/Safe_proofs.vio theories/Generated/C15_gen.vio
+theories/Props/C15.vos theories/Props/C15.vok theories/Props/C15.required_vos: theories/Props/C15.v theories/Base/Prelude.vos theories/Parse/Safe.vos theories/Parse/Safe_proofs.vos theories/Generated/C15_gen.vos
 theories/Props/C18.vo theories/Props/C18.glob theories/Props/C18.v.beautified theories/Props/C18.required_vo: theories/Props/C18.v theories/Base/Prelude.vo theories/Event/Merge.vo theories/Event/Merge_proofs.vo theories/Event/Stream.vo theories/Event/Collection.vo theories/Event/Collection_proofs.vo
 theories/Props/C18.vio: theories/Props/C18.v theories/Base/Prelude.vio theories/Event/Merge.vio theories/Event/Merge_proofs.vio theories/Event/Stream.vio theories/Event/Collection.vio theories/Event/Collection_proofs.vio
 theories/Props/C18.vos theories/Props/C18.vok theories/Props/C18.required_vos: theories/Props/C18.v theories/Base/Prelude.vos theories/Event/Merge.vos theories/Event/Merge_proofs.vos theories/Event/Stream.vos theories/Event/Collection.vos theories/Event/Collection_proofs.vos
